@@ -33,6 +33,7 @@ type Reader struct {
 	objStmCache map[int]*core.ObjectStream // Cache for object streams
 	fileSize    int64
 	pageTree    *pages.PageTree // Cached page tree
+	loading     map[int]bool    // Objects whose lookup is in progress (cycle guard)
 }
 
 // Ensure Reader implements pages.ObjectResolver
@@ -182,6 +183,18 @@ func (r *Reader) GetObject(objNum int) (core.Object, error) {
 	if !entry.InUse {
 		return nil, fmt.Errorf("object %d is not in use", objNum)
 	}
+
+	// Loading an object can re-enter GetObject (an indirect /Length is resolved
+	// while its stream is being parsed). A stream whose /Length leads back to the
+	// stream itself would recurse until the stack is exhausted.
+	if r.loading[objNum] {
+		return nil, fmt.Errorf("object %d refers to itself while being loaded", objNum)
+	}
+	if r.loading == nil {
+		r.loading = make(map[int]bool)
+	}
+	r.loading[objNum] = true
+	defer delete(r.loading, objNum)
 
 	var obj core.Object
 	var err error
